@@ -481,6 +481,62 @@ func wellFormed(s *schema.Schema) (sig, desc string) {
 	return "", ""
 }
 
+// declaredTwice is an independent scan of an (ASCII) schema text: the first top-level name that is
+// declared twice by struct / oneof / multimap / enum declarations, or "".
+func declaredTwice(text string) string {
+	if !isASCII(text) {
+		return ""
+	}
+	// strip // comments
+	var sb strings.Builder
+	for _, line := range strings.Split(text, "\n") {
+		if i := strings.Index(line, "//"); i >= 0 {
+			line = line[:i]
+		}
+		sb.WriteString(line)
+		sb.WriteByte('\n')
+	}
+	var toks []string
+	cur := ""
+	flush := func() {
+		if cur != "" {
+			toks = append(toks, cur)
+			cur = ""
+		}
+	}
+	for _, c := range sb.String() {
+		switch {
+		case c == '{' || c == '}' || c == '(' || c == ')' || c == '[' || c == ']' || c == '=':
+			flush()
+			toks = append(toks, string(c))
+		case c == ' ' || c == '\t' || c == '\n' || c == '\r':
+			flush()
+		default:
+			cur += string(c)
+		}
+	}
+	flush()
+	depth := 0
+	seen := map[string]bool{}
+	for i, t := range toks {
+		switch t {
+		case "{":
+			depth++
+		case "}":
+			depth--
+		case "struct", "oneof", "multimap", "enum":
+			if depth == 0 && i+1 < len(toks) {
+				n := toks[i+1]
+				if seen[n] {
+					return n
+				}
+				seen[n] = true
+			}
+		}
+	}
+	return ""
+}
+
 // dupEnumMember names an enum member that an ACCEPTED schema declares twice (finding
 // dup-enum-member-accepted, fixed in ed6fa67: the parser now answers "duplicate enum field
 // name"). The check stays so that a regression is reported under its old signature.
@@ -536,6 +592,10 @@ func parseCase(name, text string) parseResult {
 		}
 		if d := dupEnumMember(r.sch); d != "" {
 			propFail("C12", "dup-enum-member-accepted", "enum member name %s is declared twice and accepted; input %s", d, quote(text))
+		}
+		if d := declaredTwice(text); d != "" {
+			// judged on the input text: the returned schema cannot show it (a map keyed by name)
+			propFail("C12", "dup-top-level-accepted", "the top-level name %s is declared twice and the input is accepted; input %s", d, quote(text))
 		}
 		nontrivial = len(r.sch.Structs) > 0
 		stats["parse-ok-structs"] += len(r.sch.Structs)
